@@ -278,7 +278,7 @@ def run_c11(tier, budget, rnd) -> StreamResult:
     procs_list = [1, 2, 3, 5, 16] if quick else list(range(1, 17))
     combos = [("superadditive", "exploitability"), ("superadditive_cached", "l1_norm"),
               ("sam_apx_1", "linf_norm"), ("superadditive_cached", "l2_norm"), ("superadditive", "linf_norm")]
-    shapes = [(3, None), (4, 2), (3, 2), (4, 3)] if quick else [(3, None), (3, 1), (3, 2), (3, 5), (4, 0), (4, 1), (4, 2), (4, 3)]
+    shapes = [(3, None), (4, 2), (3, 0), (3, 2), (4, 3), (4, 0)] if quick else [(3, None), (3, 1), (3, 2), (3, 5), (4, 0), (4, 1), (4, 2), (4, 3)]
     rounds = 3 if quick else 8
     chunk_pairs = set()
     case_no = 0
@@ -353,6 +353,21 @@ def run_c11(tier, budget, rnd) -> StreamResult:
                             res.violation("reported gap ≠ gap of the game knowing exactly start ∪ set",
                                           dict(ctx, set=s, reported=v, expected=expect[frozenset(s)]), key="search:value")
                             break
+                # the search works on copies: searching the SAME game object again must give the same answer
+                if procs in (1, 2):
+                    try:
+                        with warnings.catch_warnings():
+                            warnings.simplefilter("ignore")
+                            out2 = list(get_exploitabilities_of_action_sequences(g, full, fresh.gapf, max_size=k, processes=procs))
+                        again = ([[c.id for c in s_] for s_, _ in out2], [float(v_) for _, v_ in out2])
+                    except Exception as e:       # noqa: BLE001
+                        again = f"raised {type(e).__name__}"
+                    res.count("search:repeated-on-same-object")
+                    if again != (seqs, vals):
+                        res.violation("a second exhaustive search on the same game object gives a different result "
+                                      "(the first search changed the caller's starting knowledge)",
+                                      dict(ctx, second=again if isinstance(again, str) else {"enumerated": len(again[0])}),
+                                      key="search:repeat")
                 if ref is None:
                     ref = (procs, seqs, vals)
                 elif (seqs, vals) != ref[1:]:
